@@ -1,1 +1,53 @@
-fn main() { println!("vh"); }
+mod cache;
+mod replay;
+
+use serde_json::{Value, json};
+
+fn arg(args: &[String], name: &str) -> Option<String> {
+    args.iter().position(|a| a == name).and_then(|p| args.get(p + 1).cloned())
+}
+
+fn main() {
+    let args: Vec<String> = std::env::args().collect();
+    if args.len() < 2 {
+        eprintln!("usage: vh <replay|replayops> ...");
+        std::process::exit(2);
+    }
+    match args[1].as_str() {
+        // vh replay <module> --cfg <json file> --edges <file> --out <file>
+        "replay" | "replayops" => {
+            let module = args[2].clone();
+            let cfg: Value = serde_json::from_str(
+                &std::fs::read_to_string(arg(&args, "--cfg").expect("--cfg")).expect("cfg file"),
+            )
+            .expect("cfg json");
+            let out = arg(&args, "--out").expect("--out");
+            let maxdiv: usize = arg(&args, "--maxdiv").and_then(|s| s.parse().ok()).unwrap_or(3);
+            let report: Value = match module.as_str() {
+                "ReaderCache" => {
+                    let c = cache::CacheCfg::from_json(&cfg);
+                    let make = || cache::CacheModel::new(&c);
+                    if args[1] == "replay" {
+                        replay::replay_graph(&arg(&args, "--edges").expect("--edges"), &make, maxdiv).json
+                    } else {
+                        let ops: Value = serde_json::from_str(
+                            &std::fs::read_to_string(arg(&args, "--ops").expect("--ops")).unwrap(),
+                        )
+                        .unwrap();
+                        replay::replay_ops(ops.as_array().unwrap(), &make)
+                    }
+                }
+                other => {
+                    eprintln!("unknown module {other}");
+                    std::process::exit(2);
+                }
+            };
+            std::fs::write(&out, serde_json::to_string(&report).unwrap()).unwrap();
+            let _ = json!(null);
+        }
+        other => {
+            eprintln!("unknown command {other}");
+            std::process::exit(2);
+        }
+    }
+}
